@@ -206,6 +206,26 @@ pub fn main(args: &[String]) -> i32 {
                 }
             }
         }
+        // the legacy Mirror bit (1 << 30, above the bits the legacy type names): the non-lazer representations do not reflect for it,
+        // so with it they must answer every accessor as without it (and as each other)
+        if sc.key == 0 {
+            let bits30 = sc.mods.iter().map(|a| bit_of(a)).fold(0u32, |a, b| a | b) | (1 << 30);
+            let im30 = GameModsIntermode::from_bits(bits30);
+            let with_mirror: Vec<(&str, GameMods)> = vec![("u32", GameMods::from(bits30)), ("GameModsLegacy", GameMods::from(GameModsLegacy::from_bits(bits30))),
+                ("&GameModsIntermode", GameMods::from(&im30)), ("GameModsIntermode", GameMods::from(im30.clone()))];
+            let want = want_vector(&sc.vec["legacy"]);
+            for (name, mods) in &with_mirror {
+                checks += 1;
+                let got: BTreeMap<&str, String> = mods.verif_flags(sc.lazer).into_iter().collect();
+                for (f, w) in &want {
+                    let g = got.get(f).cloned().unwrap_or_default();
+                    if *w != g {
+                        out.push(json!({"what": "accessor_with_mirror_bit", "scenario_index": i, "scenario": {"mods": sc.mods, "key": sc.key, "mode": sc.mode, "lazer": sc.lazer},
+                            "representation": name, "field": f, "expected": w, "observed": g}));
+                    }
+                }
+            }
+        }
         // end to end on a covering subset: <= 2 mods always, larger selections by seed
         let small = sc.mods.len() <= 2;
         let pick = small || (hash_str(&format!("{seed}/{i}")) % (if tier == "thorough" { 4 } else { 40 })) == 0;
